@@ -152,7 +152,7 @@ pub fn random_features(seed: u64) -> Features {
         _ => "rust-module",
     };
     let spelling = if cat == "visibility" && spelling == "rust-module" { "rust" } else { spelling };
-    let placement = *r.pick(&["entry-root", "entry-root", "entry-nested", "dep-flat", "dep-nested", "dep-nested+root-decoy"]);
+    let placement = *r.pick(&["entry-root", "entry-root", "entry-nested", "dep-flat", "dep-nested", "dep-nested+root-decoy", "entry-symlinked-dir"]);
     let prefix = match r.below(8) {
         0 => "parent",
         1 => "parent2",
@@ -160,7 +160,14 @@ pub fn random_features(seed: u64) -> Features {
         _ => "plain",
     };
     // `..` must stay inside the tree (what lies above the tree root is not ours to define): give the importer enough depth
+    // the symlinked-directory placement is about climbing imports (.. / crate) through a symbolic link
+    let (prefix, placement) = match (prefix, placement) {
+        ("plain", "entry-symlinked-dir") => ("parent", placement),
+        ("parent2", "entry-symlinked-dir") => ("parent", placement),
+        (p, q) => (p, q),
+    };
     let placement = match (prefix, placement) {
+        (_, "entry-symlinked-dir") => "entry-symlinked-dir",
         ("parent", "entry-root") | ("parent", "dep-flat") => "entry-nested",
         ("parent2", p) if p != "entry-nested" => "entry-nested",
         (_, p) => p,
@@ -193,6 +200,9 @@ pub fn random_features(seed: u64) -> Features {
     // `from ...x import y` does not parse (the lexer reads `...` as an ellipsis token): a parser matter, recorded in
     // DESIGN.md, not an import-resolution one. Two levels up are spelled `super::super::` here.
     let spelling = if prefix == "parent2" && spelling.starts_with("py") { "rust" } else { spelling };
+    // (layout stays a plain file for the symlinked-directory placement: one question at a time)
+    let layout = if placement == "entry-symlinked-dir" && cat != "fault" { "file" } else { layout };
+    let cat = if placement == "entry-symlinked-dir" && cat == "ambiguous" { "resolve" } else { cat };
     let a = r.below(90) + 10;
     let b = r.below(90) + 10;
     let c = r.below(90) + 10;
@@ -220,7 +230,8 @@ pub fn gen_scn(seed: u64) -> Scn {
 pub fn build(f: &Features, order_seed: u64) -> Scn {
     let mut r = Rng::new(order_seed);
     let prefix = f.prefix.as_str();
-    let placement = f.placement.as_str();
+    // the symlinked-directory placement only exists for climbing imports; anything else falls back to a nested entry
+    let placement = if f.placement == "entry-symlinked-dir" && prefix != "parent" && prefix != "crate" { "entry-nested" } else { f.placement.as_str() };
     let layout = f.layout.as_str();
     let item_kind = f.item_kind.as_str();
     // names depend on the item kind (so that minimising the kind keeps them legal)
@@ -239,16 +250,21 @@ pub fn build(f: &Features, order_seed: u64) -> Scn {
     } else {
         ("".to_string(), false)
     };
-    if prefix == "crate" && (!has_src || f.proj == 3) {
+    if prefix == "crate" && placement != "entry-symlinked-dir" && (!has_src || f.proj == 3) {
         tree.file(&format!("{proj_prefix}Cargo.toml"), "[package]\nname = \"p\"\nversion = \"0.1.0\"\n");
     }
-    if prefix == "crate" && f.proj == 4 {
+    if prefix == "crate" && placement != "entry-symlinked-dir" && f.proj == 4 {
         // the enclosing project has its own root markers and a decoy module of the same name
         tree.file("outer/Cargo.toml", "[package]\nname = \"outer\"\nversion = \"0.1.0\"\n");
         tree.file("outer/src/placeholder.incn", "pub def placeholder() -> int:\n    return 0\n");
     }
     let src_root = if has_src { format!("{proj_prefix}src/") } else { proj_prefix.clone() };
+    let symlinked = placement == "entry-symlinked-dir";
+    let (proj_prefix, has_src, src_root) = if symlinked { (String::new(), false, String::new()) } else { (proj_prefix, has_src, src_root) };
+    let _ = (&proj_prefix, has_src);
     let (entry_rel, importer_rel): (String, String) = match placement {
+        // logical path proj/app/main.incn; proj/app is a symbolic link to ../store/app
+        "entry-symlinked-dir" => ("proj/app/main.incn".into(), "proj/app/main.incn".into()),
         "entry-root" => ("main.incn".into(), "main.incn".into()),
         "entry-nested" => ("app/cli/main.incn".into(), "app/cli/main.incn".into()),
         "dep-flat" => ("main.incn".into(), "mid.incn".into()),
@@ -259,6 +275,8 @@ pub fn build(f: &Features, order_seed: u64) -> Scn {
     let importer_dir = importer.rsplit_once('/').map(|(d, _)| format!("{d}/")).unwrap_or_default();
     // resolution base per the documentation: the importing file's directory, moved by the prefix
     let base: String = match prefix {
+        // logical project root (the one reached by climbing the path as spelled)
+        "crate" if symlinked => "proj/".to_string(),
         "crate" => src_root.clone(),
         "parent" => parent_of(&importer_dir),
         "parent2" => parent_of(&parent_of(&importer_dir)),
@@ -379,6 +397,23 @@ pub fn build(f: &Features, order_seed: u64) -> Scn {
         tree.file(&entry, &imp_src);
     }
     if parent_underflow {
+        doc_target = None;
+    }
+    if symlinked {
+        // physical location of the importer, the link, and what a *physical* climb would find instead
+        if let Some(pos) = tree.nodes.iter().position(|(p, _)| p == &entry) {
+            let (_, node) = tree.nodes.remove(pos);
+            tree.nodes.push(("store/app/main.incn".to_string(), node));
+        }
+        tree.nodes.push(("proj/app".to_string(), Node::Symlink("../store/app".to_string())));
+        tree.file("proj/Cargo.toml", "[package]\nname = \"logical\"\nversion = \"0.1.0\"\n");
+        tree.file("store/Cargo.toml", "[package]\nname = \"physical\"\nversion = \"0.1.0\"\n");
+        let decoy = format!("store/{}.incn", segs.join("/"));
+        if tree.get(&decoy).is_none() {
+            tree.file(&decoy, &module_body(&decoy, item_kind, &pub_item, &hidden_item, n + 7000));
+        }
+        // the documentation does not say which parent a symbolic link has; only agreement is demanded
+        preferred = doc_target.clone().or(preferred);
         doc_target = None;
     }
     let order = {
@@ -832,6 +867,11 @@ pub fn minimise(scn: &Scn, class: &str, outcome: &str, scratch: &Path, fakebin: 
             if c.placement != f.placement {
                 cands.push(c);
             }
+            if f.placement == "entry-symlinked-dir" {
+                let mut c = f.clone();
+                c.placement = "entry-nested".into();
+                cands.push(c);
+            }
             if f.placement.starts_with("dep-nested") {
                 if !f.prefix.starts_with("parent") {
                     let mut c = f.clone();
@@ -845,7 +885,7 @@ pub fn minimise(scn: &Scn, class: &str, outcome: &str, scratch: &Path, fakebin: 
                 }
             }
         }
-        if f.prefix != "plain" {
+        if f.prefix != "plain" && f.placement != "entry-symlinked-dir" {
             let mut c = f.clone();
             c.prefix = "plain".into();
             cands.push(c);
@@ -911,7 +951,8 @@ pub fn minimise(scn: &Scn, class: &str, outcome: &str, scratch: &Path, fakebin: 
 }
 
 fn import_line(scn: &Scn) -> String {
-    if let Some(Node::File(s)) = scn.tree.get(&scn.importer) {
+    // (for the symlinked-directory placement the importer's bytes live at the physical path)
+    if let Some(Node::File(s)) = scn.tree.get(&scn.importer).or_else(|| scn.tree.get("store/app/main.incn")) {
         for l in s.lines() {
             if (l.starts_with("from ") || l.starts_with("import ")) && !l.contains("mid_item") {
                 return l.to_string();
